@@ -49,6 +49,10 @@ Twin(s) == [s EXCEPT !.tag = IF s.tag = "a" THEN "b" ELSE "a"]
 
 NoSig   == [by |-> -1, over |-> NoSt]
 Garbage == [by |-> -2, over |-> NoSt]    \* 64 bytes that are no signature of anybody over anything
+Malformed == [by |-> -3, over |-> NoSt]  \* 63 bytes: not even decodable as a signature
+EmptySig == [by |-> -4, over |-> NoSt]   \* a non-nil byte string of length 0
+NonSigs == {-2, -3, -4}
+NonSig(j) == [by |-> j, over |-> NoSt]
 ValidSig(i, s) == [by |-> i, over |-> s]
 
 VARIABLES phase, staging, current, adopted
@@ -102,11 +106,12 @@ Near(c) == IF current.st = NoSt THEN c.ver <= 1
 
 (* CheckUpdate(state, actor, sig, sigIdx): read-only.  The offered         *)
 (* signature is named by its class k relative to (c, i).                   *)
-SigKinds == {"valid", "foreign", "twin", "garbage"}
+SigKinds == {"valid", "foreign", "twin", "garbage", "malformed"}
 CheckSig(c, i, k) == CASE k = "valid"   -> ValidSig(i, c)
                        [] k = "foreign" -> ValidSig((i + 1) % N, c)
                        [] k = "twin"    -> ValidSig(i, Twin(c))
                        [] k = "garbage" -> Garbage
+                       [] k = "malformed" -> Malformed
 CheckUpdateG(c, a, k, i) == a \in Part /\ ValidTrans(c) /\ CheckSig(c, i, k) = ValidSig(i, c)
 CheckUpdateOk(c, a, k, i)  == Near(c) /\ (a = N => k = "valid") /\ CheckUpdateG(c, a, k, i) /\ Same
 CheckUpdateErr(c, a, k, i) == Near(c) /\ (a = N => k = "valid") /\ ~CheckUpdateG(c, a, k, i) /\ Same
@@ -117,16 +122,16 @@ SigOk == /\ SigG
          /\ UNCHANGED <<phase, current, adopted>>
 SigErr == ~SigG /\ Same
 
-(* AddSig(idx, sig): the offered signature is named by its signer j (-2 =  *)
-(* garbage bytes) and the state it is over, relative to the machine: the   *)
+(* AddSig(idx, sig): the offered signature is named by its signer j (<0: no  *)
+(* signature)  and the state it is over, relative to the machine: the   *)
 (* staged state, the current state (replay of an old signature), or the    *)
 (* staged state's twin (same version, other balances: the replay of a      *)
 (* signature over a discarded update).                                     *)
 Rels == {"staging", "current", "twin"}
 RelState(rel) == CASE rel = "staging" -> staging.st [] rel = "current" -> current.st
                    [] rel = "twin" -> Twin(staging.st)
-SigOf(j, rel) == IF j = -2 THEN Garbage ELSE ValidSig(j, RelState(rel))
-Offered(j, rel) == IF j = -2 THEN rel = "staging" ELSE RelState(rel) \notin {NoSt, Twin(NoSt)}
+SigOf(j, rel) == IF j \in NonSigs THEN NonSig(j) ELSE ValidSig(j, RelState(rel))
+Offered(j, rel) == IF j \in NonSigs THEN rel = "staging" ELSE RelState(rel) \notin {NoSt, Twin(NoSt)}
 AddSigG(i, g) == phase \in SigningPhases /\ staging.sigs[i] = NoSig /\ g = ValidSig(i, staging.st)
 AddSigOk(i, j, rel)  == Offered(j, rel) /\ AddSigG(i, SigOf(j, rel))
                         /\ staging' = [staging EXCEPT !.sigs[i] = SigOf(j, rel)]
@@ -174,7 +179,7 @@ Next ==
   \/ \E c \in Cand : ForceUpdateOk(c)
   \/ \E c \in Cand, a \in {0, N}, k \in SigKinds, i \in Part : CheckUpdateOk(c, a, k, i) \/ CheckUpdateErr(c, a, k, i)
   \/ SigOk \/ SigErr
-  \/ \E i \in Part, j \in Part \cup {-2}, rel \in Rels : AddSigOk(i, j, rel) \/ AddSigErr(i, j, rel)
+  \/ \E i \in Part, j \in Part \cup NonSigs, rel \in Rels : AddSigOk(i, j, rel) \/ AddSigErr(i, j, rel)
   \/ EnableInitOk \/ EnableInitErr
   \/ EnableUpdateOk \/ EnableUpdateErr
   \/ EnableFinalOk \/ EnableFinalErr
